@@ -409,6 +409,75 @@ pub fn check_negotiate(c: &NegCase) -> CheckResult {
 }
 
 // ---------------------------------------------------------------------------
+// what the FSM hands the session at Established vs what the codec negotiated
+// ---------------------------------------------------------------------------
+
+#[derive(Clone, Debug, Serialize, Deserialize)]
+pub struct FsmCase {
+    /// local families with add-path mode, and configured send-max per family index
+    pub local: Vec<(u8, u8)>,
+    pub send_max: Vec<(u8, u8)>,
+    pub remote: CapSpec,
+}
+
+pub fn check_fsm_params(c: &FsmCase) -> CheckResult {
+    use crate::fsm::{Input, Output, PeerFsm, PeerFsmOutput, Role};
+    let families = fams(&c.local);
+    let fam_map: fnv::FnvHashMap<Family, u8> = families.iter().copied().collect();
+    let local_cap = crate::event::PeerParams::build_local_cap(IpAddr::V4(Ipv4Addr::new(10, 0, 0, 2)), 65000, &fam_map, None, None);
+    let mut send_max: fnv::FnvHashMap<Family, usize> = Default::default();
+    for (f, n) in &c.send_max {
+        send_max.insert(ALL_FAMILIES[*f as usize % 19], 2 + (*n % 6) as usize);
+    }
+    let mut remote_caps = c.remote.build();
+    // the peer's own AS in its four-octet capability
+    remote_caps.retain(|x| !matches!(x, Capability::FourOctetAsNumber(_)));
+    remote_caps.push(Capability::FourOctetAsNumber(65100));
+    let mut fsm = PeerFsm::new(0x0100_0001, 65000, local_cap.clone(), 90, 0, send_max.clone());
+    let open = packet::bgp::Message::Open(packet::bgp::Open { as_number: 65100, holdtime: packet::bgp::HoldTime::new(90).unwrap(), router_id: 0x0a00_0002, capability: remote_caps.clone() });
+    let mut outs = Vec::new();
+    outs.extend(catch(|| fsm.process(Role::Passive, Input::Connected(false))).map_err(|p| p.into_failure("PeerFsm"))?);
+    outs.extend(catch(|| fsm.process(Role::Passive, Input::MessageReceived(open))).map_err(|p| p.into_failure("PeerFsm"))?);
+    outs.extend(catch(|| fsm.process(Role::Passive, Input::MessageReceived(packet::bgp::Message::Keepalive))).map_err(|p| p.into_failure("PeerFsm"))?);
+    let mut codec = None;
+    let mut eff = None;
+    for o in outs {
+        match o {
+            PeerFsmOutput::Connection(_, Output::SessionNegotiated(cd)) => codec = Some(cd),
+            PeerFsmOutput::Connection(_, Output::SessionEstablished { effective_max, .. }) => eff = Some(effective_max),
+            _ => {}
+        }
+    }
+    let (Some(codec), Some(eff)) = (codec, eff) else { return Ok(CaseInfo::trivial().class("not-established")) };
+    let remote_mp = mp_families(&remote_caps);
+    let mut info = CaseInfo::trivial();
+    for f in ALL_FAMILIES.iter().take(19) {
+        let local_has = if families.is_empty() { *f == Family::IPV4 } else { families.iter().any(|(x, _)| x == f) };
+        let both = local_has && remote_mp.contains(f);
+        if codec.has_family(*f) != both {
+            return Err(Failure::new("fsm-parameters", format!("{f:?}: advertised locally {local_has}, by the peer {}; in force {}", remote_mp.contains(f), codec.has_family(*f))).with("what", "family"));
+        }
+        let lm = families.iter().find(|(x, _)| x == f).map(|(_, m)| *m).unwrap_or(0);
+        let rm = addpath_mode(&remote_caps, *f);
+        let tx = both && lm & 2 != 0 && rm & 1 != 0;
+        let rx = both && lm & 1 != 0 && rm & 2 != 0;
+        if both {
+            let st = codec.family_state(*f).unwrap();
+            if st.addpath_tx != tx || st.addpath_rx != rx {
+                return Err(Failure::new("fsm-parameters", format!("{f:?}: add-path modes local {lm} / peer {rm}: codec sends path ids {} and expects them {}; both ends advertised: send {tx}, receive {rx}", st.addpath_tx, st.addpath_rx)).with("what", "add-path"));
+            }
+        }
+        // the send-max handed to the session must go with the codec's send direction
+        let want = if tx { send_max.get(f).copied() } else { None };
+        if eff.get(f).copied() != want {
+            return Err(Failure::new("fsm-parameters", format!("{f:?}: add-path modes local {lm} / peer {rm}, configured send-max {:?}: the session is told to send up to {:?} paths per prefix, while path identifiers are {} on this session (expected {:?})", send_max.get(f), eff.get(f), if tx { "sent" } else { "not sent" }, want)).with("what", "send-max"));
+        }
+        info.nontrivial |= send_max.contains_key(f) && both && (lm != 0 || rm != 0);
+    }
+    Ok(info.class("established"))
+}
+
+// ---------------------------------------------------------------------------
 // generators
 // ---------------------------------------------------------------------------
 
@@ -432,11 +501,19 @@ pub fn run(r: &Run) {
     r.assume("enable / disable is the admin_down flag; the session-closing side effects of the gRPC disable call are not exercised");
     r.prop("admission", r.tier.pick(30_000, 400_000), arb_case, check);
     r.prop("negotiate", r.tier.pick(30_000, 1_000_000), || (arb_caps(8), arb_caps(8)).prop_map(|(a, b)| NegCase { a, b }), check_negotiate);
+    r.prop("fsm-parameters", r.tier.pick(60_000, 1_500_000), || (proptest::collection::vec((0u8..6, 0u8..4), 0..4), proptest::collection::vec((0u8..6, any::<u8>()), 0..3), arb_caps(6)).prop_map(|(local, send_max, mut remote)| {
+        // meet on few families so that both ends often advertise the same ones
+        for (f, _) in remote.families.iter_mut() {
+            *f %= 6;
+        }
+        FsmCase { local, send_max, remote }
+    }), check_fsm_params);
 }
 
 pub fn replay(sub: &str, case: &Value) -> Result<CheckResult, String> {
     match sub {
         "negotiate" => Ok(check_negotiate(&decode_case(case)?)),
+        "fsm-parameters" => Ok(check_fsm_params(&decode_case(case)?)),
         _ => Ok(check(&decode_case(case)?)),
     }
 }
